@@ -38,7 +38,7 @@ var c12Payloads = []string{
 	"<>\"'&", "%3C+~", "{{ 7 }}{% if %}",
 }
 
-var c12Wrappers = []string{"plain", "safe-same", "safe-other", "safe-nested-other"}
+var c12Wrappers = []string{"plain", "safe-same", "safe-other", "safe-nested-other", "safe-other-with-a-derived-value-safe-for-this-type", "named-int-with-String", "named-bool-with-String", "named-float-with-String", "struct-with-String"}
 
 var escFns = map[string]func(string) string{"html": escape.HTML, "html_attr": escape.HTMLAttribute, "js": escape.JS, "css": escape.CSS, "url": escape.URLQueryParam}
 
@@ -157,6 +157,13 @@ var c12Constructs = []c12construct{
 				m: "{% embed '" + h + "' %}{% block b %}[1:{{ x }}]{% endblock %}{% endembed %}[4:{{ x }}]",
 				h: "e [2:{{ x }}]{% block b %}no{% endblock %}{% block c %}[3:{{ x }}]{% endblock %}"},
 			[]c12site{{id: "1", tpl: m, direct: true}, {id: "2", tpl: h, direct: true}, {id: "3", tpl: h, direct: true}, {id: "4", tpl: m, direct: true}}
+	}},
+	{"child-top-level-capture", true, func(m, h string) (map[string]string, []c12site) {
+		// whatever a child template does outside its blocks, nothing of it may reach the output unescaped
+		return map[string]string{
+				m: "{% extends '" + h + "' %}{% set c %}[1:{{ x }}]{% endset %}{% set d = x %}{% block b %}{{ c|raw }}[2:{{ d }}]{% endblock %}",
+				h: "p {% block b %}no{% endblock %} q"},
+			[]c12site{{id: "1", tpl: m, direct: false}}
 	}},
 	{"set-capture", false, func(m, h string) (map[string]string, []c12site) {
 		return one(m, "{% set c %}[1:{{ x }}]{% endset %}{{ c }}", c12site{id: "1", direct: false})
@@ -501,6 +508,24 @@ func (p *c12) Run(i int) (res fw.Result) {
 				if mainType == "css" || mainType == "url" || mixed {
 					continue
 				}
+			case 4:
+				// marking a derived value safe for this type says nothing about the value it was derived from
+				if mixed || mainType == "" {
+					continue
+				}
+				x = stick.NewSafeValue(payload, other)
+				_ = stick.NewSafeValue(x, mainType)
+			case 5:
+				gen.KindText = payload
+				x = gen.KindInt(7)
+			case 6:
+				gen.KindText = payload
+				x = gen.KindBool(true)
+			case 7:
+				gen.KindText = payload
+				x = gen.KindFloat(1.5)
+			case 8:
+				x = gen.ValStringer{S: payload}
 			}
 			ctx := map[string]stick.Value{"x": x, "t": true, "f": false, "arr": []stick.Value{x, x}, "hash": map[string]stick.Value{"k": x}}
 			var buf bytes.Buffer
@@ -581,7 +606,7 @@ func (p *c12) Run(i int) (res fw.Result) {
 }
 
 func (p *c12) Rule() string {
-	return fmt.Sprintf("exhaustive product for single-construct templates: %d template names (html, html.twig, js, js.twig, css, txt, txt.twig, no extension, .twig only, unknown extensions xml/foo/json/HTML, url, html_attr, names with a dot in a directory part, and inline sources through the string loader with and without dots) x %d constructs (top level, if/else/elseif, for, for-else, for..if, loop value, block, nested, overridden/inherited block, three-level chain, parent(), block(), include, include-with-only, embed with override, set-capture, filter section, macro, imported macro, ternary, concatenation, interpolation, via set, attribute access, filter results, raw, explicit escape) x helper template of the same / a different content type x %d payloads x 4 value wrappers (plain, safe for the same type, safe for another type, nested safe for other types); random payloads over the significant alphabet on top; plus seeded random multi-template programs (every tag, inheritance, include/embed/use/import, macros, captures, filter sections, all built-in filters except raw) whose own text and string literals are inert while every context string is a hostile payload - their whole output must be HTML-inert. Every print is bracketed by inert sentinels; template literal text uses an inert alphabet. Oracles: (exactness) each directly printed segment equals escaper(value) applied once for the content type of the template that contains the print (statement's rule: registered extension, txt = none, html otherwise), raw and same-type-safe values unchanged, explicit escape = implicit; (safety) in single-type cases the whole output contains no character significant for that type outside escape sequences - this also covers prints routed through captures, filter sections, macros, block() and parent(). Non-trivial = the payload contains a character the resolved escaper changes; distinct = (name, construct, helper variant, payload, wrapper).", len(c12Names), len(c12Constructs), len(c12Payloads))
+	return fmt.Sprintf("exhaustive product for single-construct templates: %d template names (html, html.twig, js, js.twig, css, txt, txt.twig, no extension, .twig only, unknown extensions xml/foo/json/HTML, url, html_attr, names with a dot in a directory part, and inline sources through the string loader with and without dots) x %d constructs (top level, if/else/elseif, for, for-else, for..if, loop value, block, nested, overridden/inherited block, three-level chain, parent(), block(), include, include-with-only, embed with override, a capture at the top level of an extending template used raw inside a block, set-capture, filter section, macro, imported macro, ternary, concatenation, interpolation, via set, attribute access, filter results, raw, explicit escape) x helper template of the same / a different content type x %d payloads x 9 value wrappers (plain, safe for the same type, safe for another type, nested safe for other types, safe for another type while a value derived from it was marked safe for this type, named int / bool / float types and a struct whose String method returns the payload); random payloads over the significant alphabet on top; plus seeded random multi-template programs (every tag, inheritance, include/embed/use/import, macros, captures, filter sections, all built-in filters except raw) whose own text and string literals are inert while every context string is a hostile payload - their whole output must be HTML-inert. Every print is bracketed by inert sentinels; template literal text uses an inert alphabet. Oracles: (exactness) each directly printed segment equals escaper(value) applied once for the content type of the template that contains the print (statement's rule: registered extension, txt = none, html otherwise), raw and same-type-safe values unchanged, explicit escape = implicit; (safety) in single-type cases the whole output contains no character significant for that type outside escape sequences - this also covers prints routed through captures, filter sections, macros, block() and parent(). Non-trivial = the payload contains a character the resolved escaper changes; distinct = (name, construct, helper variant, payload, wrapper).", len(c12Names), len(c12Constructs), len(c12Payloads))
 }
 
 func (p *c12) Assumptions() []string {
